@@ -177,6 +177,50 @@ def can_handle(repo, interp, c, obj, wire):
     return r
 
 
+def auto_round_trip(ctx, repo, interp, classes, b):
+    """-> None when the generic round trip of an untabled builder is established, else the reason it is not"""
+    cname, bname = b
+    bfi = repo.method(cname, bname)
+    a = bfi.node.args
+    if a.vararg is not None or a.posonlyargs:
+        return "unusual signature"
+    params = [p.arg for p in a.args[: len(a.args) - len(a.defaults)]]
+    args = [F(f"{bname}_{p}", 8) for p in params]
+    try:
+        msg = build_message(repo, interp, cname, bname, args)
+        wire = wire_of(msg)
+        if wire is None:
+            return "the builder produced no content"
+        wire = SymBytes.of(wire)
+        if wire.concrete() is not None:
+            wire = wire.concrete()
+        accept = []
+        for c in classes:
+            if c.short in CATCH_ALL:
+                continue
+            if can_handle(repo, interp, c, fresh_handler(repo, interp, c), wire):
+                accept.append(c.short)
+        if accept != [cname]:
+            return f"the message is claimed by {accept or 'nobody'}"
+        sock = Obj(None, {"queue_send": Native(lambda a_, k_: None), "get_and_increment_sequence_counter": Native(lambda a_, k_: F("ackseq", 8))}, name="socket")
+        rx = fresh_handler(repo, interp, repo.cls(cname), sock)
+        interp.steps = 0
+        interp.call(repo.method(cname, "handle"), rx, [wire, SENDER])
+    except (PyRaise, Undecided) as e:
+        return f"interpretation stopped: {e}"
+    for p in params:
+        found = False
+        for attr in list(rx.attrs):
+            ok, _ = compare((f"{bname}_{p}", 8), rx.attrs[attr])
+            if ok:
+                found = True
+                break
+        if not found:
+            return f"parameter `{p}` is not recovered by the decoder"
+    ctx.ob("R2", f"{cname}.{bname}[auto]::round-trip", True, "", sample={"rule": "R2", "builder": f"{cname}.{bname}", "mode": "auto-derived", "fields": params})
+    return None
+
+
 def round_trips(ctx, repo):
     interp = Interp(repo, max_depth=10)
     classes = handler_classes(repo)
@@ -199,7 +243,14 @@ def round_trips(ctx, repo):
         if rets and all(_delegates(v) for v in rets):
             ctx.count(f"R2:delegating_builder:{b[0]}.{b[1]}", 1)
             continue
-        ctx.error(f"builder {b[0]}.{b[1]} is not covered by the round-trip table and does not simply delegate to a covered builder (new message kind: the analysis must be extended before C04 can be decided)")
+        # a message kind added after the audit: derive its round trip generically - every positional parameter is a
+        # symbolic 8-bit field, the message must be claimed by its own class only, and each field must come back,
+        # bit for bit, in some attribute of the decoding handler.  Anything less than that: ANALYSIS-ERROR.
+        why = auto_round_trip(ctx, repo, interp, classes, b)
+        if why is None:
+            ctx.count(f"R2:auto_round_trip:{b[0]}.{b[1]}", 1)
+            continue
+        ctx.error(f"builder {b[0]}.{b[1]} is not covered by the round-trip table, does not delegate to a covered builder, and its round trip could not be derived automatically ({why}): the analysis must be extended before C04 can be decided")
     ctx.floor("R2", "message builders", len(builders), 24)
 
     socks = {}
